@@ -113,6 +113,75 @@ theorem C02_inv_describe (s : St) (h : Inv s) :
 
 example : Cfdm.Describe.describe (toM exField false) ≠ none := by decide
 
+/-- **An accepted `del_construct` leaves no reference to the deleted key**, whatever the term maps of the
+coordinate references are: the key may be the value of several terms of one coordinate conversion, of terms
+of several references, and a coordinate of several references (`ancils` / `coords` are arbitrary lists). -/
+theorem C02_del_construct_cleans_references (s : St) (h : Inv s) (view : Bool) (k : Key)
+    (hok : (step s (.delc view k)).2.isOk = true) :
+    ∀ q c, (step s (.delc view k)).1.cons.get q = some c → q.1 = CType.ref →
+      k ∉ c.coords ∧ some k ∉ c.ancils := by
+  have hinv := (inv_iff_core _).mp (C02_inv_step_partial s (.delc view k) h trivial)
+  -- the deleted key is no longer registered
+  have key : ∀ s' o, delConstruct true s view k = (s', Out.ok o) → s'.ctype.get k = none := by
+    intro s' o hd
+    unfold delConstruct at hd
+    repeat' split at hd
+    all_goals first
+      | (simp at hd; done)
+      | (simp only [Prod.mk.injEq] at hd; obtain ⟨rfl, _⟩ := hd; simp [pop, cleanRefs, Dict.get_del])
+  have hgone : (step s (.delc view k)).1.ctype.get k = none := by
+    have e : step s (.delc view k) = delConstruct true s view k := rfl
+    rw [e] at hok ⊢
+    cases hd : delConstruct true s view k with
+    | mk s' o =>
+      rw [hd] at hok
+      cases o with
+      | rejected => simp [Out.isOk] at hok
+      | ok ko => exact key s' ko hd
+  intro q c hq hr
+  have hn := hinv.refs q c hq hr
+  refine ⟨fun hx => ?_, fun hx => ?_⟩
+  · rcases hn.1 k hx with h1 | h1
+    · cases hg : (step s (.delc view k)).1.cons.get (.dim, k) with
+      | none => simp [hg] at h1
+      | some c0 => have := hinv.tos _ c0 hg; simp only at this; rw [hgone] at this; cases this
+    · cases hg : (step s (.delc view k)).1.cons.get (.aux, k) with
+      | none => simp [hg] at h1
+      | some c0 => have := hinv.tos _ c0 hg; simp only at this; rw [hgone] at this; cases this
+  · have h1 := hn.2 (some k) hx
+    simp only at h1
+    cases hg : (step s (.delc view k)).1.cons.get (.dan, k) with
+    | none => simp [hg] at h1
+    | some c0 => have := hinv.tos _ c0 hg; simp only at this; rw [hgone] at this; cases this
+
+/-- one domain ancillary under TWO terms (`a`, `b`) of one coordinate conversion and under a term of a
+second reference, which also shares the coordinate -/
+def exShared : St :=
+  { cons := [((.axis, ⟨"domainaxis", 0⟩), { size := some 3 }),
+             ((.dim, ⟨"dimensioncoordinate", 0⟩), { data := some [3] }),
+             ((.dan, ⟨"domainancillary", 0⟩), { data := some [3] }),
+             ((.dan, ⟨"domainancillary", 1⟩), { data := some [3] }),
+             ((.ref, ⟨"coordinatereference", 0⟩),
+                { coords := [⟨"dimensioncoordinate", 0⟩], terms := ["a", "b", "orog"],
+                  ancils := [some ⟨"domainancillary", 0⟩, some ⟨"domainancillary", 0⟩, some ⟨"domainancillary", 1⟩] }),
+             ((.ref, ⟨"coordinatereference", 1⟩),
+                { coords := [⟨"dimensioncoordinate", 0⟩], terms := ["a"], ancils := [some ⟨"domainancillary", 0⟩] })],
+    ctype := [(⟨"domainaxis", 0⟩, .axis), (⟨"dimensioncoordinate", 0⟩, .dim), (⟨"domainancillary", 0⟩, .dan),
+              (⟨"domainancillary", 1⟩, .dan), (⟨"coordinatereference", 0⟩, .ref), (⟨"coordinatereference", 1⟩, .ref)],
+    caxes := [(⟨"dimensioncoordinate", 0⟩, [⟨"domainaxis", 0⟩]), (⟨"domainancillary", 0⟩, [⟨"domainaxis", 0⟩]),
+              (⟨"domainancillary", 1⟩, [⟨"domainaxis", 0⟩])] }
+
+example : Inv exShared := by decide
+-- both routes accept, every term of every reference is reset, the other term is kept
+example : ∀ view, (step exShared (.delc view ⟨"domainancillary", 0⟩)).2.isOk = true ∧
+    ((step exShared (.delc view ⟨"domainancillary", 0⟩)).1.cons.get (.ref, ⟨"coordinatereference", 0⟩)).map (·.ancils)
+      = some [none, none, some ⟨"domainancillary", 1⟩] ∧
+    ((step exShared (.delc view ⟨"domainancillary", 0⟩)).1.cons.get (.ref, ⟨"coordinatereference", 1⟩)).map (·.ancils)
+      = some [none] := by decide
+-- a coordinate shared by two references is removed from both
+example : ∀ view, ((step exShared (.delc view ⟨"dimensioncoordinate", 0⟩)).1.cons.live.filter (fun p => p.1.1 = .ref)).map (·.2.coords)
+    = [[], []] := by decide
+
 /-- a rejected `set_construct` leaves the container exactly as it was -/
 theorem C02_set_rejected_unchanged (s s' : St) (view : Bool) (t : CType) (c : Con) (key : Option Key)
     (axes : Option (List Key)) (h : step s (.setc view t c key axes) = (s', .rejected)) : s' = s := by
